@@ -1361,3 +1361,86 @@ Proof.
       constructor; unfold live_K in *; sproj; auto; rewrite ?Hc1, ?Ha1; auto;
       try (apply tcp_state_eqb_true in Hcl; rewrite Hcl; cbn; discriminate).
 Qed.
+
+Theorem dispatch_inv : forall cx s emit_ok s' res tags,
+  tcp_live_inv s -> tcp_dispatch cx s emit_ok = Ok (s', res, tags) -> tcp_live_inv s'.
+Proof.
+  intros cx s emit_ok s' res tags I H. unfold tcp_dispatch in H.
+  destruct (s_tuple s) as [t|]; [|inversion H; subst; exact I].
+  destruct (negb (tu_local_addr t =? cx_addr cx)); [inversion H; subst; apply reset_inv; exact I|].
+  obind_inv H. destruct a as (s1, t1). pose proof (dispatch_timers_inv _ _ _ _ I E) as I1.
+  obind_inv H. destruct a as ((s2, go), t2). pose proof (dispatch_decide_inv _ _ _ _ _ I1 E0) as I2.
+  destruct (negb go); [inversion H; subst; exact I2|].
+  obind_inv H. destruct a as ((((s3, o), z), k), t3).
+  destruct (build_core _ _ _ _ _ _ _ _ E1) as (C3 & Hz & _).
+  pose proof (inv_core_eq _ _ C3 I2) as I3.
+  destruct o as [repr|]; [|inversion H; subst; exact I3].
+  destruct (negb emit_ok); [inversion H; subst; exact I3|].
+  pose proof (dispatch_finish_inv cx s3 repr z k I3 Hz) as I4.
+  destruct (tcp_dispatch_finish cx s3 repr z k) as (s4, t4). inversion H; subst. exact I4.
+Qed.
+
+(* ------------------------------------------------------------------------------------------ *)
+(* every event of the socket's life                                                             *)
+(* ------------------------------------------------------------------------------------------ *)
+Definition ev_ok (ev : event) : Prop :=
+  match ev with EvSegment _ r => seg_ok r | _ => True end.
+
+Lemma ingress_inv : forall cx s ip r s' reply tags,
+  ctx_ok cx -> seg_ok r -> tcp_live_inv s ->
+  iface_tcp_ingress cx s ip r = Ok (s', reply, tags) -> tcp_live_inv s'.
+Proof.
+  intros cx s ip r s' reply tags Hcx Hseg I H. unfold iface_tcp_ingress in H.
+  destruct ((ip_src ip =? 0) || (ip_dst ip =? 0)); [inversion H; subst; exact I|].
+  destruct ((r_src_port r =? 0) || (r_dst_port r =? 0)); [inversion H; subst; exact I|].
+  destruct (tcp_accepts s ip r); [exact (process_inv _ _ _ _ _ _ _ Hcx Hseg I H)|].
+  destruct (control_eqb (r_control r) CRst); [inversion H; subst; exact I|].
+  obind_inv H. inversion H; subst; exact I.
+Qed.
+
+Theorem step_inv : forall cx s ev s' out tags,
+  ctx_ok cx -> ev_ok ev -> tcp_live_inv s ->
+  tcp_step cx s ev = Ok (s', out, tags) -> tcp_live_inv s'.
+Proof.
+  intros cx s ev s' out tags Hcx Hev I H. destruct ev; cbn [tcp_step ev_ok] in *.
+  - destruct (tcp_listen s ep) eqn:E; inversion H; subst; eauto using listen_inv.
+  - destruct (tcp_connect cx s remote_addr remote_port local) eqn:E; inversion H; subst;
+      eauto using connect_inv.
+  - inversion H; subst. apply close_inv; exact I.
+  - inversion H; subst. apply abort_inv; exact I.
+  - destruct (tcp_send_slice s data) as [(s1, n)|e|] eqn:E; inversion H; subst;
+      eauto using send_slice_inv.
+  - destruct (tcp_recv_slice s n) as [(s1, l)|e|] eqn:E; inversion H; subst; try exact I.
+    exact (inv_core_eq _ _ (recv_slice_core _ _ _ _ E) I).
+  - destruct (tcp_peek s n); inversion H; subst; exact I.
+  - destruct (tcp_peek_slice s n); inversion H; subst; exact I.
+  - inversion H; subst. apply (inv_core_eq s); [core_triv | exact I].
+  - inversion H; subst. apply set_keep_alive_inv; exact I.
+  - inversion H; subst. apply (inv_core_eq s); [core_triv | exact I].
+  - inversion H; subst. apply (inv_core_eq s); [core_triv | exact I].
+  - obind_inv H. inversion H; subst. exact (inv_core_eq _ _ (set_hop_limit_core _ _ _ E) I).
+  - obind_inv H. destruct a as ((s1, reply), tg). inversion H; subst.
+    exact (ingress_inv _ _ _ _ _ _ _ Hcx Hev I E).
+  - obind_inv H. destruct a as ((s1, res), tg). inversion H; subst.
+    exact (dispatch_inv _ _ _ _ _ _ I E).
+Qed.
+
+(* the reachable sockets: created by [tcp_new] (with a sane congestion controller, e.g. [CcNone]
+   or [CcReno reno_new]) and then driven by ANY sequence of API calls, received segments and
+   dispatches, at any times, with or without a device that accepts the frames *)
+Inductive tcp_reachable : socket -> Prop :=
+| reach_new : forall rx tx cc ts s,
+    cc_ok cc -> tcp_new rx tx cc ts = Ok s -> tcp_reachable s
+| reach_step : forall cx s ev s' out tags,
+    tcp_reachable s -> ctx_ok cx -> ev_ok ev ->
+    tcp_step cx s ev = Ok (s', out, tags) -> tcp_reachable s'.
+
+Theorem reachable_inv : forall s, tcp_reachable s -> tcp_live_inv s.
+Proof.
+  induction 1; [eapply new_inv; eassumption | eapply step_inv; eassumption].
+Qed.
+
+(* C02, safety half, full strength *)
+Theorem deadline_invariant : forall cx s,
+  tcp_reachable s -> tcp_need s -> tcp_poll_at cx s <> Ok PIngress.
+Proof. intros cx s R N. apply deadline_from_inv; [apply reachable_inv; exact R | exact N]. Qed.
